@@ -5,7 +5,7 @@ from functools import lru_cache
 from returns.functions import raise_exception
 
 from ..expression import parse_assignment
-from ..format import parse_format
+from ..format import Format, parse_format
 from ..problem import Problem, make_problem
 from ..tensor import Tensor
 from ._tensor_method import BackendCompiler, TensorMethod
@@ -14,6 +14,13 @@ from ._tensor_method import BackendCompiler, TensorMethod
 @lru_cache
 def cachable_tensor_method(problem: Problem, backend: BackendCompiler) -> TensorMethod:
     return TensorMethod(problem, backend=backend)
+
+
+def tensor_format(name: str, tensor: Tensor) -> Format:
+    # Same rejection as TensorMethod.__call__, which is never reached if reading the format fails
+    if not isinstance(tensor, Tensor):
+        raise TypeError(f"Argument {name} must be a Tensor not {type(tensor)}")
+    return tensor.format
 
 
 def tensor_method(
@@ -34,7 +41,7 @@ def tensor_method(
 
 def evaluate_cffi(assignment: str, output_format: str, **inputs: Tensor) -> Tensor:
     parsed_assignment = parse_assignment(assignment).alt(raise_exception).unwrap()
-    input_formats = {name: tensor.format for name, tensor in inputs.items()}
+    input_formats = {name: tensor_format(name, tensor) for name, tensor in inputs.items()}
     parsed_output_format = parse_format(output_format).alt(raise_exception).unwrap()
 
     formats = {parsed_assignment.target.name: parsed_output_format} | input_formats
@@ -48,7 +55,7 @@ def evaluate_cffi(assignment: str, output_format: str, **inputs: Tensor) -> Tens
 
 def evaluate_tensora(assignment: str, output_format: str, **inputs: Tensor) -> Tensor:
     parsed_assignment = parse_assignment(assignment).alt(raise_exception).unwrap()
-    input_formats = {name: tensor.format for name, tensor in inputs.items()}
+    input_formats = {name: tensor_format(name, tensor) for name, tensor in inputs.items()}
     parsed_output_format = parse_format(output_format).alt(raise_exception).unwrap()
 
     formats = {parsed_assignment.target.name: parsed_output_format} | input_formats
